@@ -22,3 +22,4 @@ def rules(ctx):
     S.c05_r7_savepoint_symmetry(ctx)
     S.c12_tree_rules(ctx)
     S.c12_db_rules(ctx)
+    S.walker_rules(ctx)
